@@ -369,6 +369,7 @@ pub fn run_check(engine: &dyn Engine, spec: &CheckSpec) -> i32 {
     let mut minimised = 0usize;
     let mut min_execs = 0usize;
     let mut not_reproduced: Vec<String> = vec![];
+    let mut hangs_not_reproduced = 0u64;
     let replays_dir = verif.join("replays");
     // A watchdog expiry during the batch can be load (16 runs in parallel, other processes on
     // the machine) rather than a hang: re-execute the case alone with four times the budget and
@@ -442,6 +443,13 @@ pub fn run_check(engine: &dyn Engine, spec: &CheckSpec) -> i32 {
             }
             None => false,
         };
+        if !reproduced && mv.verdict == "hang" {
+            // a time-limit verdict that does not repeat when its case is executed alone says the
+            // limit was reached because of where the budget stood, not that the call never returns:
+            // counted, neither a violation (it cannot be replayed) nor a harness error
+            hangs_not_reproduced += 1;
+            continue;
+        }
         let path = write_replay(&replays_dir, engine.name(), &mv);
         if !reproduced {
             not_reproduced.push(format!("{} ({})", mv.sig_string(), path.display()));
@@ -476,6 +484,7 @@ pub fn run_check(engine: &dyn Engine, spec: &CheckSpec) -> i32 {
     cov.insert("other_property_verdicts_seen".into(), json!(other_prop));
     cov.insert("minimisation_executions".into(), json!(min_execs));
     cov.insert("watchdog_expiries_that_completed_when_rerun_alone".into(), json!(slow_runs));
+    cov.insert("time_limit_verdicts_that_did_not_repeat_when_run_alone".into(), json!(hangs_not_reproduced));
     cov.insert("engine".into(), json!(engine.name()));
     cov.insert("profile".into(), json!(spec.profile));
     cov.insert("workers".into(), json!(spec.workers));
